@@ -83,7 +83,7 @@ Proof.
 Qed.
 
 Lemma sys_fir_waveform_lemma : forall sc st ts c0 taps',
-  noisy (ant_cfg sc) = false -> fe_taps sc = c0 :: taps' ->
+  noisy (ant_cfg sc) = false -> fe_taps sc = c0 :: taps' -> fe_shift sc = None ->
   wf_window ts -> uniform ts ->
   (length (fe_taps sc) <= S (Z.to_nat (lead_in_n sc ts)))%nat ->
   let dt := t_second ts - t_first ts in
@@ -91,7 +91,7 @@ Lemma sys_fir_waveform_lemma : forall sc st ts c0 taps',
   sig_eq (snd (s_full_waveform sc st ts))
          (mkSig ts (map (fir_response (fe_taps sc) (fun u => sum_at (signals (ant st)) u * fe_scale sc) dt) ts)).
 Proof.
-  intros sc st ts c0 taps' Hn Htaps Hw Hu Hmem dt. unfold s_full_waveform.
+  intros sc st ts c0 taps' Hn Htaps Hshift Hw Hu Hmem dt. unfold s_full_waveform.
   rewrite fw_noiseless by exact Hn. cbn [fst snd]. split; [destruct st; reflexivity|].
   set (lt := lead_in_times sc ts). set (sigs := signals (ant st)). set (n := Z.to_nat (lead_in_n sc ts)) in *.
   pose proof (lead_in_times_window sc ts Hw) as Hwl. fold lt in Hwl.
@@ -101,7 +101,7 @@ Proof.
   assert (Hvl : length vals = length lt) by (rewrite (Forall2_Qeq_length _ _ Hv), map_length; reflexivity).
   assert (Hltlen : length lt = (n + length ts)%nat).
   { unfold lt, lead_in_times. rewrite app_length. unfold linspace_open. rewrite map_length, seq_length. reflexivity. }
-  unfold sig_eq, with_times, front_end. rewrite Htaps. rewrite <- Htaps. cbn [s_times s_values]. fold vals.
+  unfold sig_eq, with_times, front_end. rewrite Hshift. rewrite Htaps. rewrite <- Htaps. cbn [s_times s_values]. fold vals.
   split; [reflexivity|].
   set (scaled := map (fun v => v * fe_scale sc) vals).
   assert (Hsl : length scaled = length lt) by (unfold scaled; rewrite map_length; exact Hvl).
@@ -154,4 +154,61 @@ Proof.
   assert (Hlt : nat_Q (length (fe_taps sc) - 1) < inject_Z (lead_in_n sc ts)).
   { apply Qmult_lt_r with dt; [exact Hdt|]. lra. }
   unfold nat_Q in Hlt. rewrite <- Zlt_Qlt in Hlt. lia.
+Qed.
+
+(* ------------------------------------------------------------------ front ends that re-stamp their output
+   gain followed by a cable delay: front_end(signal) = Signal(signal.times + D, gain*values).  The output grid
+   is NOT the grid the front end was given, so the final  processed.with_times(times)  does real work: when D is
+   a whole number d of samples of a uniform window and the lead-in grid has at least d nodes, the system
+   waveform is  gain * S(t_j - D). *)
+Lemma increasing_from_shift : forall l x0 D, increasing_from x0 l ->
+  increasing_from (x0 + D) (map (fun u => u + D) l).
+Proof.
+  induction l as [|x1 l IH]; intros x0 D H; simpl; [exact I|].
+  destruct H as [H1 H2]. split; [lra|apply IH; exact H2].
+Qed.
+
+Lemma increasing_shift : forall l D, increasing l -> increasing (map (fun u => u + D) l).
+Proof. intros l D H. destruct l as [|x0 l]; simpl; [exact I|]. apply increasing_from_shift. exact H. Qed.
+
+Lemma sys_delay_waveform_lemma : forall sc st ts D d,
+  noisy (ant_cfg sc) = false -> fe_taps sc = [] -> fe_shift sc = Some D ->
+  wf_window ts -> uniform ts ->
+  (d <= Z.to_nat (lead_in_n sc ts))%nat ->
+  D == nat_Q d * (t_second ts - t_first ts) ->
+  fst (s_full_waveform sc st ts) = st /\
+  sig_eq (snd (s_full_waveform sc st ts))
+         (mkSig ts (map (fun t => sum_at (signals (ant st)) (t - D) * fe_scale sc) ts)).
+Proof.
+  intros sc st ts D d Hn Htaps Hshift Hw Hu Hd HD. unfold s_full_waveform.
+  rewrite fw_noiseless by exact Hn. cbn [fst snd]. split; [destruct st; reflexivity|].
+  set (lt := lead_in_times sc ts). set (sigs := signals (ant st)). set (n := Z.to_nat (lead_in_n sc ts)) in *.
+  pose proof (lead_in_times_window sc ts Hw) as Hwl. fold lt in Hwl.
+  destruct (full_waveform_is_sum_lemma (ant_cfg sc) sigs lt Hwl) as (_ & Hv).
+  unfold spec_wave in Hv. cbn [s_values] in Hv.
+  set (vals := s_values (fw_pure (ant_cfg sc) sigs lt)) in *.
+  assert (Hvl : length vals = length lt) by (rewrite (Forall2_Qeq_length _ _ Hv), map_length; reflexivity).
+  assert (Hltlen : length lt = (n + length ts)%nat).
+  { unfold lt, lead_in_times. rewrite app_length. unfold linspace_open. rewrite map_length, seq_length. reflexivity. }
+  unfold sig_eq, with_times, front_end. rewrite Hshift, Htaps. cbn [s_times s_values]. fold vals.
+  split; [reflexivity|].
+  set (scaled := map (fun v => v * fe_scale sc) vals).
+  set (shifted := map (fun u => u + D) lt).
+  apply Forall2_nth_Q; [rewrite !map_length; reflexivity|].
+  intros j Hj. rewrite map_length in Hj.
+  rewrite (nth_map_Q (fun t => interp t shifted scaled)) by exact Hj.
+  rewrite (nth_map_Q (fun t => sum_at sigs (t - D) * fe_scale sc)) by exact Hj.
+  assert (Hi : (n + j - d < length lt)%nat) by lia.
+  assert (Hmn : (d <= n + j)%nat) by lia.
+  pose proof (lead_in_back_nodes sc ts j d Hw Hu Hj Hmn) as Hback. cbn zeta in Hback. fold n lt in Hback.
+  assert (Hnode : nth j ts 0 == nth (n + j - d) shifted 0).
+  { unfold shifted. rewrite (nth_map_Q (fun u => u + D)) by exact Hi. rewrite Hback, HD. ring. }
+  rewrite (interp_proper shifted scaled _ _ Hnode).
+  rewrite interp_node; [|apply increasing_shift; apply Hwl
+                        |unfold shifted, scaled; rewrite !map_length; lia
+                        |unfold shifted; rewrite map_length; exact Hi].
+  unfold scaled. rewrite (nth_map_Q (fun v => v * fe_scale sc)) by lia.
+  rewrite (Forall2_Qeq_nth _ _ Hv) by lia.
+  rewrite (nth_map_Q (sum_at sigs)) by exact Hi.
+  apply Qmult_comp; [|reflexivity]. apply sum_at_proper. rewrite Hback, HD. reflexivity.
 Qed.
